@@ -302,6 +302,19 @@ def run_case(case, ctx):
                 pairs = [(i, j) for i in range(N) for j in range(N) if i != j]
                 rnd.shuffle(pairs)
                 used_t = set()
+                if rnd.random() < 0.4:
+                    # instead: ONE node of another type (not merged, scalar source variable) projects to the merged nodes with a
+                    # different delay per connection
+                    pairs = []
+                    spec['ops']['src_op'] = {'eqs': [['de', 'sx', E.tolist(E.neg(E.mul(E.var('ks'), E.var('sx'))))]],
+                                             'vars': {'sx': ['out', 0.77], 'ks': ['const', 0.9]}}
+                    spec['node_types']['nt_src'] = {'ops': ['src_op'], 'over': {}}
+                    spec['circ']['nodes']['srcn'] = 'nt_src'
+                    dl_ = rnd.sample([0.004, 0.007, 0.011, 0.016, 0.023, 0.03], N)
+                    for j in range(N):
+                        spec['circ']['edges'].append(['srcn/src_op/sx', f'n{j}/dde_op0/u', None,
+                                                      {'weight': round(rnd.uniform(0.3, 1.9), 3), 'delay': dl_[j] if rnd.random() < 0.8 else dl_[0]}])
+                    info['scalar_source_delays'] = True
                 for (i, j) in pairs:
                     if j in used_t or rnd.random() < 0.3:
                         continue
@@ -323,6 +336,8 @@ def run_case(case, ctx):
         risk.append('vectorized_parameter_delay')
     if info.get('vec_edges'):
         mech['vectorized_delayed_edges'] = 1
+    if info.get('scalar_source_delays'):
+        mech['scalar_source_several_delays'] = 1
     if info.get('neg'):
         risk.append('negative_coefficient_on_past')
     res = {'features': [mode, info['style'], f"delays{min(info['n_delays'], 4)}"], 'risk': risk,
